@@ -63,6 +63,9 @@ type judge struct {
 	fails []finding
 	greys []string
 	dec   map[string]any // decoded tokens for the witness
+	// the key that signed each token ("id_token", "access_token") and the algorithm of the last one looked at
+	sigKey map[string]*keys.Key
+	sigAlg string
 }
 
 func (j *judge) fail(class, format string, a ...any) {
@@ -164,17 +167,47 @@ var scopeClaims = map[string][]string{
 	"address": {"address"},
 }
 
+// signingKeyOf names "the provider's current signing key" for one token. Normally that is the one key vstore hands
+// out. In the ring stratum (vstore.RotateOnRead) every SigningKey() read hands out the next key of the ring - a rotation
+// between any two reads - so the current key of a token is the ring key its own header kid names: the token must be
+// signed by it, and everything derived from "the signing algorithm" (at_hash, c_hash) must use that key's algorithm.
+func (j *judge) signingKeyOf(kind string, hdr map[string]any) *keys.Key {
+	e := j.e
+	if len(e.ring) == 0 {
+		return e.w.Store.SigningKeyOf()
+	}
+	kid, _ := hdr["kid"].(string)
+	for _, k := range e.ring {
+		if k.Kid == kid {
+			e.run.Count("ring", kind+"_signed_by_ring_key_"+fmt.Sprint(slices.Index(e.ring, k)))
+			return k
+		}
+	}
+	return nil
+}
+
 // signedBy checks header and signature of a compact JWS against the provider's *current* signing key, independently of the library.
 func (j *judge) signedBy(kind, token string) (map[string]any, map[string]any, bool) {
-	k := j.e.w.Store.SigningKeyOf()
 	hdr := keys.HeaderOf(token)
 	if hdr == nil {
 		j.fail(kind+":malformed", "%s is not a compact JWS: %q", kind, token)
 		return nil, nil, false
 	}
 	j.dec[kind+"_header"] = hdr
+	var p map[string]any
+	_ = json.Unmarshal(keys.PayloadOf(token), &p)
+	k := j.signingKeyOf(kind, hdr)
+	if k == nil {
+		j.fail(kind+":kid", "%s header kid=%v names none of the provider's signing keys (ring %v)", kind, hdr["kid"], j.e.d.Ring)
+		if p != nil {
+			j.dec[kind] = p
+		}
+		return hdr, p, p != nil
+	}
+	j.sigKey[kind] = k
+	j.sigAlg = string(k.Alg)
 	if hdr["alg"] != string(k.Alg) {
-		j.fail(kind+":alg", "%s header alg=%v, the provider's current signing key is %s", kind, hdr["alg"], k.Alg)
+		j.fail(kind+":alg", "%s header alg=%v, the provider's current signing key %q is for %s", kind, hdr["alg"], k.Kid, k.Alg)
 	}
 	if k.Kid != "" && hdr["kid"] != k.Kid {
 		j.fail(kind+":kid", "%s header kid=%v, the provider's current signing key has kid %q", kind, hdr["kid"], k.Kid)
@@ -182,11 +215,16 @@ func (j *judge) signedBy(kind, token string) (map[string]any, map[string]any, bo
 	if hdr["typ"] != "JWT" {
 		j.e.run.Count("grey", kind+"_typ_not_JWT")
 	}
-	m, err := j.e.w.VerifyWithOPKey(token)
+	var m map[string]any
+	jws, err := jose.ParseSigned(token, []jose.SignatureAlgorithm{k.Alg})
+	if err == nil {
+		var payload []byte
+		if payload, err = jws.Verify(k.Public()); err == nil {
+			err = json.Unmarshal(payload, &m)
+		}
+	}
 	if err != nil {
 		j.fail(kind+":signature", "%s does not verify under the provider's current signing key (%s/%s): %v", kind, k.Kid, k.Alg, err)
-		var p map[string]any
-		_ = json.Unmarshal(keys.PayloadOf(token), &p)
 		if p != nil {
 			j.dec[kind] = p
 		}
@@ -515,7 +553,10 @@ func (j *judge) rpVerify(id, access, alg string, m map[string]any, filled map[st
 		}
 		return
 	}
-	k := e.w.Store.SigningKeyOf()
+	k := j.sigKey["id_token"]
+	if k == nil {
+		return
+	}
 	found := false
 	for _, jk := range set.Keys {
 		if pub, ok := jk.Key.(interface{ Equal(x crypto.PublicKey) bool }); ok {
@@ -753,7 +794,7 @@ func (e *env) user(id string) map[string]any {
 func (e *env) judgeResponse(x expect, t *tokenResp, c *vclient.Client) bool {
 	run := e.run
 	run.Eval()
-	j := &judge{e: e, x: x, t: t, dec: map[string]any{}}
+	j := &judge{e: e, x: x, t: t, dec: map[string]any{}, sigKey: map[string]*keys.Key{}}
 	id, access := t.ID, t.Access
 	if x.IDOnly {
 		id, access = t.Access, ""
@@ -766,22 +807,31 @@ func (e *env) judgeResponse(x expect, t *tokenResp, c *vclient.Client) bool {
 		j.idToken(id, access)
 		run.Count("tokens", "id_token")
 		run.Observed("id_token:" + x.Step + ":" + e.d.Router)
-		run.Observed("alg:" + string(e.w.Store.SigningKeyOf().Alg))
+		run.Observed("alg:" + j.sigAlg)
+	}
+	if j.sigAlg == "" {
+		j.sigAlg = e.d.Alg
 	}
 	if e.aborted {
 		return false
 	}
 	scopeClass := scopeClassOf(x.Scopes)
-	run.Distinct(strings.Join([]string{e.d.Router, x.Step, e.d.Flow, string(e.w.Store.SigningKeyOf().Alg), e.d.KeyShape, e.d.TokenType, e.d.Skew, e.d.IDTTL, scopeClass,
+	run.Distinct(strings.Join([]string{e.d.Router, x.Step, e.d.Flow, j.sigAlg, e.d.KeyShape, e.d.TokenType, e.d.Skew, e.d.IDTTL, scopeClass,
 		fmt.Sprint(e.d.Assertion), fmt.Sprint(e.d.Extras), e.d.Custom, e.d.IssuerMode, x.Client}, "|"))
 	run.Count("judged", x.Step+":"+e.d.Router)
-	run.Count("dim_alg", string(e.w.Store.SigningKeyOf().Alg))
+	run.Count("dim_alg", j.sigAlg)
 	run.Count("dim_issuer_mode", e.d.IssuerMode)
 	run.Count("dim_scope_class", scopeClass)
 	run.Count("dim_custom", e.d.Custom)
 	run.Count("dim_skew", e.d.Skew)
 	run.Count("dim_key_shape", e.d.KeyShape)
 	run.Observed("success:" + x.Step + ":" + e.d.Router)
+	if len(e.ring) > 0 && id != "" {
+		run.Observed("ring:id_token:" + e.d.Router)
+		if ak := j.sigKey["access_token"]; ak != nil && j.sigKey["id_token"] != nil && ak != j.sigKey["id_token"] {
+			run.Count("ring", "access_jwt_and_id_token_signed_by_different_ring_keys")
+		}
+	}
 	sort.Strings(j.greys)
 	for _, g := range slices.Compact(j.greys) {
 		run.Count("grey", g)
